@@ -167,8 +167,13 @@ fn ints_to_prim(ctx: &mut Ctx) {
         // to_biguint / to_bigint between the big types
         ctx.case();
         ctx.compared(2);
-        let r = call(ctx, || x.to_biguint().map(|y| nat_of(&y)));
         let wantu = if v.neg { None } else { Some(v.mag.clone()) };
+        let r = call(ctx, || ToBigUint::to_biguint(&x).map(|y| nat_of(&y)));
+        ctx.compared(1);
+        if r != Out::Ret(wantu.clone()) {
+            ctx.viol(format!("ToBigUint::to_biguint(&BigInt) v={}", v.to_hex()), "trait form of to_biguint must succeed exactly for non-negative values", vec![], format!("{:?}", wantu), format!("{:?}", r));
+        }
+        let r = call(ctx, || x.to_biguint().map(|y| nat_of(&y)));
         if r != Out::Ret(wantu.clone()) {
             ctx.viol(format!("BigInt::to_biguint v={}", v.to_hex()), "to_biguint must succeed exactly for non-negative values", vec![], format!("{:?}", wantu), format!("{:?}", r));
         }
